@@ -92,3 +92,12 @@ func VerifPoolBuf(v interface{}) []byte {
 	}
 	return nil
 }
+
+var verifResetPools func()
+
+// VerifResetPools empties the package-level pools (no-op when the pools file is not built in).
+func VerifResetPools() {
+	if verifResetPools != nil {
+		verifResetPools()
+	}
+}
